@@ -1,7 +1,7 @@
 (* C02 - Mapper errors are precise and a failed call changes no mapping.
    About the abstract tree model (Paging/Tree.v), which the correspondence check ties to the
    three mapper implementations on whole call histories. *)
-From X86 Require Import Paging.Mapped Paging.Tree Paging.TreeProofs Paging.Refine Paging.RefineAtomic Paging.MemAtomic Paging.Recursive Paging.RecRead Paging.RecEquiv Paging.RecMap Paging.Run.
+From X86 Require Import Paging.Mapped Paging.Tree Paging.TreeProofs Paging.Refine Paging.RefineAtomic Paging.MemAtomic Paging.Recursive Paging.RecRead Paging.RecEquiv Paging.RecMap Paging.RefineHistory Paging.RecRefineTop Paging.RecRefine Paging.Run.
 Open Scope Z_scope.
 
 (* which outcome map_to reports is decided by the state it is called in *)
@@ -146,3 +146,13 @@ Theorem C02_recursive_map_to_is_mapped_map_to : forall s ch k page frame flags p
   rmap_to s k page frame flags pf = map_to_rc true s k page frame flags pf.
 Proof. exact rmap_to_eq. Qed.
 Print Assumptions C02_recursive_map_to_is_mapped_map_to.
+
+(* whole histories on the RecursivePageTable memory model never panic or fault, and answer every
+   call as the tree model of the recursive kind does: every outcome theorem above (stated on the
+   tree for either kind) therefore holds of RecursivePageTable's table memory too *)
+Theorem C02_recursive_histories_answer_as_the_tree : forall r ops s ch fr,
+  rInv r s ch -> Forall mop_ok ops -> Forall (fun o => p4_index (mop_page o) <> r) ops ->
+  exists s' outs ch', rmem_run s ops = Ok (s', outs) /\
+    run_history true r (tst ch s fr) (map to_top ops) = (tst ch' s' fr, outs) /\ rInv r s' ch'.
+Proof. exact rrun_refines. Qed.
+Print Assumptions C02_recursive_histories_answer_as_the_tree.
